@@ -5,12 +5,14 @@ EXTENDS Presentation, Json
 CONSTANTS N, Two, KModel, TModel
 VARIABLES a, p, done
 Scales == {<<1, 1>>, <<2, 1>>, <<1, 4>>, <<3, 1>>, <<1, 1000000>>, <<1000000, 1>>}
-All == [holder : {"dense", "sparse"}, printitn : 0..3, seed : {0}, scale : Scales, perm : Perms0(N), start : {"given", "random"}]
+All == [holder : {"dense", "sparse"}, printitn : 0..3, seed : {0}, scale : Scales, perm : Perms0(N), start : {"given", "random"},
+        dtype : {"float", "int"}]
 NDiff(q) == LET b == [Base(N) EXCEPT !.start = q.start] IN
-            Cardinality({c \in {"holder", "printitn", "scale", "perm"} : q[c] # b[c]})
+            Cardinality({c \in {"holder", "printitn", "scale", "perm", "dtype"} : q[c] # b[c]})
 Keep(al, q) == /\ Admissible(al, N, q)
                /\ \/ NDiff(q) <= 1
                   \/ Two /\ NDiff(q) = 2 /\ q.printitn # 0
+                  \/ NDiff(q) = 2 /\ q.dtype = "int" /\ q.holder = "sparse"      \* integer-typed sparse data
 GInit == PInit /\ a \in Algs /\ p \in {q \in All : Keep(a, q)} /\ done = FALSE
 GNext == ~done /\ done' = TRUE /\ UNCHANGED <<a, p, pvars>> /\ PrintT(ToJson([alg |-> a, pres |-> p]))
 GSpec == GInit /\ [][GNext]_<<a, p, done, pvars>>
